@@ -1,19 +1,26 @@
 /-
-Driver for the language enumerator (`Model/Enum.lean`), exe `drv_enum`.
+Driver for the language enumerator (`Model/Enum.lean`) and the parser-language model (`Model/Scan.lean`), exe
+`drv_enum`.
 
   {"op":"enum","grammar":G,"inst":[[regexId,[leaf…]]…],"start":"<start>","depth":d,"cap":c,"lim":n,"rot":r}
       → {"trees":[{"tree":T,"tags":[regexId|null…],"valid":bool}…]}
      `valid` is the verified checker `validB` on the enumerated tree with the oracle "leaf ∈ inst id"
      (it is `true` by `C05_enum_checked`; the driver refuses to answer otherwise)
-  {"op":"greedy","binary":bool,"word":[units],"leaves":[leaf…],"tags":[regexId|null…],
-   "oracle":[[regexId,[units],m]…]}
-      → {"greedy":bool}       `regexGreedy` with the greedy-length table (absent pair = no match)
+  {"op":"judge","grammar":G,"start":s,"word":[units],"rlen":[[regexId,w,m]…],"binary":bool,
+   "leaves":[leaf…],"tags":[regexId|null…]|null,"full":[[regexId,leaf]…],"nregex":n,"depth":d,"cap":c
+   [,"walk_only":true]}
+      → {"accepts":bool|null,"fail":[i,isRegex]|null,"len_ok":bool,"in_class":bool}
+     `accepts` = `Scan.accepts` (the parser-language model, `C05_parser_language_iff`) with the greedy-length
+     table `rlen` (absent triple = no match); `fail` = `Scan.firstFail` on the tagged witness, or
+     `Scan.firstFailU` (tags = null: `full` = the `re.fullmatch` table, regex ids `0 … n-1`;
+     `C05_untagged_in_class`); `in_class` = no `fail` and the serialised leaves cover the word (`Scan.inClass`)
   {"op":"capvalid","grammar":G,"oracle":O,"tree":T,"cap":c,"sel":"braces"|"all"|"none"}
       → {"valid":bool}        the verified checker on the grammar whose open-ended repetitions of the selected
                               kinds are capped at c (`RepCap.capGrammar`; `C05_capValid_iff`)
 -/
 import Driver.IRJson
 import Model.Enum
+import Model.Scan
 import Model.RepCap
 import Model.IRFast
 open Lean FV FV.Drv FV.Enum
@@ -40,18 +47,23 @@ def tagOf (j : Json) : Except String (Option Nat) :=
   | Json.null => pure none
   | x => do pure (some (← x.getNat?))
 
-def greedyTable (j : Json) : Except String (Nat → List Nat → Option Nat) := do
+def rlenTable (j : Json) : Except String (Nat → Nat → Option Nat) := do
   let rows ← j.getArr?
   let tbl ← rows.toList.mapM (fun r => do
     let a ← r.getArr?
+    if a.size != 3 then throw "rlen row: [regexId, w, m] expected"
     let id ← (a[0]?.getD Json.null).getNat?
-    let us ← natArr (a[1]?.getD Json.null)
+    let w ← (a[1]?.getD Json.null).getNat?
     let m ← (a[2]?.getD Json.null).getNat?
-    pure (id, us, m))
-  return fun r z =>
-    match tbl.find? (fun p => p.1 == r && p.2.1 == z) with
+    pure (id, w, m))
+  return fun r w =>
+    match tbl.find? (fun p => p.1 == r && p.2.1 == w) with
     | some p => some p.2.2
     | none => none
+
+def jFail : Option (Nat × Bool) → Json
+  | none => Json.null
+  | some (i, b) => Json.arr #[Json.num (JsonNumber.fromNat i), Json.bool b]
 
 def handle (j : Json) : Except String Json := do
   let op ← j.getObjValAs? String "op"
@@ -73,13 +85,34 @@ def handle (j : Json) : Except String Json := do
       pure (Json.mkObj [("tree", jTree p.1), ("tags", Json.arr (p.2.map jTag).toArray),
         ("valid", Json.bool ok)]))
     return Json.mkObj [("trees", Json.arr out.toArray)]
-  | "greedy" =>
-    let binary ← (← j.getObjVal? "binary").getBool?
+  | "judge" =>
+    let G ← grammarOf (← j.getObjVal? "grammar")
+    let start ← j.getObjValAs? String "start"
     let word ← natArr (← j.getObjVal? "word")
+    let rlen ← rlenTable (← j.getObjVal? "rlen")
+    let binary ← (← j.getObjVal? "binary").getBool?
     let leaves ← (← (← j.getObjVal? "leaves").getArr?).toList.mapM leafOfJson
-    let tags ← (← (← j.getObjVal? "tags").getArr?).toList.mapM tagOf
-    let Rg ← greedyTable (← j.getObjVal? "oracle")
-    return Json.mkObj [("greedy", Json.bool (regexGreedy Rg binary word leaves tags 0))]
+    let d ← (← j.getObjVal? "depth").getNat?
+    let c ← (← j.getObjVal? "cap").getNat?
+    let inp : Scan.Inp := ⟨word, rlen⟩
+    let lenOk := Scan.lenSum binary leaves == some inp.ncols
+    let (fail, inClass) ← match (← j.getObjVal? "tags") with
+      | Json.null => do
+        let full ← oracleOf (← j.getObjVal? "full")
+        let n ← (← j.getObjVal? "nregex").getNat?
+        let f := Scan.firstFailU inp binary full (List.range n) leaves 0 0
+        pure (f, f.isNone && lenOk)
+      | tj => do
+        let tags ← (← tj.getArr?).toList.mapM tagOf
+        if tags.length != leaves.length then throw "judge: tags and leaves differ in length"
+        pure (Scan.firstFail inp binary leaves tags 0 0, Scan.inClass inp binary leaves tags)
+    -- "walk_only": the recogniser is not run (`accepts` = null); the walk over the leaves is linear
+    let walkOnly := match j.getObjVal? "walk_only" with
+      | .ok (Json.bool b) => b
+      | _ => false
+    let acc := if walkOnly then Json.null else Json.bool (Scan.accepts G inp c d start)
+    return Json.mkObj [("accepts", acc), ("fail", jFail fail),
+      ("len_ok", Json.bool lenOk), ("in_class", Json.bool inClass)]
   | "capvalid" =>
     let G ← grammarOf (← j.getObjVal? "grammar")
     let R ← oracleOf (← j.getObjVal? "oracle")
